@@ -318,6 +318,9 @@ const SNIPPETS: &[&str] = &[
     "select * from t order by a ASC, b desc NULLS first\n",
     "INSERT INTO t (A, b) VALUES (1, 'x')\n",
     "select date_part('year', d), EXTRACT(Year FROM d), dateadd(DAY, 1, d) from t\n",
+    // string literals with a prefix letter, both cases of the prefix (a dialect that does not know the form sees a word and a string)
+    "select b'ab', B'ab', r'x', R'x', x'1f', X'1F', e'a', E'a', n'a', N'a', rb'q', Br'q' from t\n",
+    "SELECT B\"ab\", R\"x\", b\"c\" FROM t WHERE a = X'00' AND b = E'\\n'\n",
 ];
 
 // ---------------------------------------------------------------- run one item
